@@ -132,6 +132,7 @@ Lemma register_ack_spec o pkid :
   o_pubrels (fst (register_ack o pkid)) = o_pubrels o.
 Proof.
   unfold register_ack. destruct (o_inflight o) as [|[[h x] y] r] eqn:E; cbn [fst]; [rewrite E; repeat split; lia|].
+  destruct (pkid =? h); cbn [fst]; [|rewrite E; repeat split; lia].
   cbn [set_o_inflight o_client o_link o_inflight o_pubrels]. rewrite lenN_cons'. repeat split; lia.
 Qed.
 
@@ -140,6 +141,7 @@ Lemma register_pubcomp_spec o pkid :
   o_inflight (fst (register_pubcomp o pkid)) = o_inflight o.
 Proof.
   unfold register_pubcomp. destruct (o_pubrels o) as [|h r]; cbn [fst]; auto.
+  destruct (pkid =? h); cbn [fst]; auto.
 Qed.
 
 Lemma do_append_spec cfg id p props st0 fl0 :
